@@ -339,6 +339,69 @@ def run_vector(work: Path, tag, field, prov, with_sequence=None):
         shutil.rmtree(root, ignore_errors=True)
 
 
+def transform_placement(chk, work: Path, quick):
+    """'... and the user transform in glyph placement': transforms WITH off-diagonal terms (shear, rotation, general affine),
+    given in the file or as a flag, in an OT-SVG and a COLRv1 build through the real CLI; the glyph is judged by the
+    picture oracles of C02 / C01 under the INTENDED configuration (a translation alone cannot tell a mirrored shear)."""
+    import io
+
+    from fontTools.ttLib import TTFont
+
+    from . import build, c02
+    from . import compile_check as CC
+    from . import scenarios as S
+
+    wanted = ["matrix(1 0.2 0 1 0 0)", "rotate(15)", "matrix(0.8 0.3 -0.2 1.1 30 -20)"][: 2 if quick else 3]
+    grid = [g for g in S.transform_fill_grid() if g[0].endswith("x linear-bbox") and g[1] in wanted]
+    jobs = []
+    for k, (label, t, glyphs) in enumerate(grid):
+        for j, fmt in enumerate(("picosvg", "glyf_colr_1")):
+            jobs.append((k, label, t, glyphs, fmt, ["file", "flag"][(k + j) % 2]))
+
+    def one(job):
+        k, label, t, glyphs, fmt, prov = job
+        root = work / f"t-{k}-{fmt}"
+        sb = cli.Sandbox(root)
+        srcs = CC.sources_from(glyphs)
+        for src in srcs:
+            sb.write(f"src/{src.filename}", src.svg_text)
+        kw = {"color_format": fmt, "keep_glyph_names": True, "clip_to_viewbox": False, "reuse_tolerance": 0.1}
+        cfg = {"output_file": "Font.ttf"}
+        cfg.update(kw)
+        if prov == "file":
+            cfg["transform"] = t
+        lines = [f"{a} = {toml_value(b)}" for a, b in cfg.items()]
+        lines += ["[axis.wght]", 'name = "Weight"', "default = 400", "[master.regular]", 'style_name = "Regular"',
+                  'srcs = ["src/*.svg"]', "[master.regular.position]", "wght = 400"]
+        sb.write("config.toml", "\n".join(lines) + "\n")
+        args = ["config.toml"] + (flag_args("transform", t) if prov == "flag" else [])
+        try:
+            rc, out = sb.run(args)
+            p = sb.build / "Font.ttf"
+            data = p.read_bytes() if rc == 0 and p.exists() else None
+            return job, rc, out[-500:], data, srcs, kw, args, "\n".join(lines)
+        finally:
+            shutil.rmtree(root, ignore_errors=True)
+
+    with ThreadPoolExecutor(4) as ex:
+        results = list(ex.map(one, jobs))
+    for (k, label, t, glyphs, fmt, prov), rc, log, data, srcs, kw, args, text in results:
+        chk.case(key=("transform-placement", t, fmt, prov), nontrivial=True)
+        chk.traces_validated += 1
+        replay = {"kind": "transform-placement", "transform": t, "format": fmt, "provenance": prov, "args": args, "config": text,
+                  "svgs": [x.svg_text for x in srcs]}
+        if data is None:
+            chk.violation(f"transform {t} by {prov} ({fmt}): build failed or font missing (rc={rc}): {log[-200:]}", replay)
+            continue
+        font = TTFont(io.BytesIO(data))
+        cfg = build.base_config(transform=t, **kw)
+        ctx = f"user transform {t} given by {prov} [{fmt}]"
+        if fmt == "picosvg":
+            c02.check_pictures(chk, font, cfg, srcs, glyphs, 0.1, ctx, replay, deltas=CC.layer_deltas(glyphs, cfg, 0.1))
+        else:
+            CC.check_font_pictures(chk, font, cfg, srcs, glyphs, 0.1, ctx, replay, deltas=CC.layer_deltas(glyphs, cfg, 0.1))
+
+
 # ------------------------------------------------------------------ multi-configuration isolation
 def _cfg_text(out, opts):
     lines = [f'output_file = "{out}"'] + [f"{k} = {toml_value(v)}" for k, v in opts.items()]
@@ -486,6 +549,8 @@ def run(chk):
         if obs is None or expected_ok(field, intended, obs, bases["vec"], None) is not None:
             chk.violation("glyphmap_generator with custom glyph names and a codepoint sequence: build fails "
                           f"(rc={info['rc']})", {"field": field, "info": info}, finding_key=KF_GLYPHMAP_SEQ)
+        # ---- the user transform in glyph placement, beyond translations
+        transform_placement(chk, work, quick)
         # ---- multi-configuration invocations
         pair_jobs = [(i, p, o) for i, p in enumerate(PAIRS) for o in ((0,) if quick else (0, 1))]
 
